@@ -46,20 +46,27 @@ fn exec<const B: usize, const L: usize>(m: &mut Mon, op: &str, a: &[Arg]) {
             let (bx, bm) = (big::big(a[0].u()), big::big(a[1].u()));
             m.nontrivial(bm >= BigUint::from(2u8) && bx >= BigUint::from(2u8));
             let exists = bm >= BigUint::from(2u8) && big::gcd(&bx, &bm).is_one();
-            if let Some(r) = m.must_in("inv_mod", || x.inv_mod(md)) {
+            // the method and the public free function it forwards to: same contract, no precondition on either
+            let method = m.must_in("inv_mod", || x.inv_mod(md));
+            let free = m.must_in("algorithms::inv_mod", || ruint::algorithms::inv_mod(x, md));
+            for (r, some, none, range, value) in [
+                (method, "inv_mod.some", "inv_mod.none", "inv_mod.range", "inv_mod.value"),
+                (free, "algorithms::inv_mod.some", "algorithms::inv_mod.none", "algorithms::inv_mod.range", "algorithms::inv_mod.value"),
+            ] {
+                let Some(r) = r else { continue };
                 match r {
                     Some(v) => {
                         m.canonical(&v);
-                        if m.eq("inv_mod.some", &true, &exists) {
+                        if m.eq(some, &true, &exists) {
                             let bv = big::big(v.as_limbs());
-                            m.check(bv < bm, "inv_mod.range", || format!("x < m = {}", big::bhex(&bm)), || big::bhex(&bv));
+                            m.check(bv < bm, range, || format!("x < m = {}", big::bhex(&bm)), || big::bhex(&bv));
                             let prod = (&bx * &bv) % &bm;
-                            m.check(prod.is_one(), "inv_mod.value", || "a*x = 1 (mod m)".into(), || format!("x={} a*x mod m={}", big::bhex(&bv), big::bhex(&prod)));
+                            m.check(prod.is_one(), value, || "a*x = 1 (mod m)".into(), || format!("x={} a*x mod m={}", big::bhex(&bv), big::bhex(&prod)));
                             m.obs(|| format!("inverse={}", big::bhex(&bv)));
                         }
                     }
                     None => {
-                        m.eq("inv_mod.none", &true, &!exists);
+                        m.eq(none, &true, &!exists);
                     }
                 }
             }
